@@ -41,9 +41,9 @@ RULE = ("all histories of length L (every shorter one is a prefix and is checked
         "two-level chain (7 actions: cb/eb/cancel on d0 and d1, wait0 once) x 13 canceller configurations "
         "at L=5 and x 3 configurations (outer none|nothing|fires callback, inner without canceller) at L=6 quick / x 13 at "
         "L=6 and x 3 at L=7 thorough; three-level chain (11 actions: cb/eb/cancel on d0,d1,d2, wait0 and "
-        "wait1 once each) x 6 configurations at L=5 quick / L=6 thorough; all enumerated directly, "
+        "wait1 once each) x 4 configurations at L=5 quick / L=6 thorough; all enumerated directly, "
         "unpruned.  Plus E1 depth-first exploration with state pruning to length 12 / 16 over all 13 "
-        "two-level and 24 three-level configurations.  A history is distinct by (configuration, action "
+        "two-level and 32 three-level configurations.  A history is distinct by (configuration, action "
         "list) and non-trivial when it contains a cancel or a firing attempt on an already fired Deferred.")
 ASSUMPTIONS = [
     "trusted base: the 3-state model plus FIFO chaining rules in this module (about 90 lines)",
@@ -60,8 +60,7 @@ READY = True
 KINDS = ("none", "cb", "eb", "nothing", "raises")
 CONFIGS2 = ([(o, i) for o in KINDS for i in ("none", "nothing")] + [("none", i) for i in ("cb", "eb", "raises")])
 CONFIGS2_LONG = [(o, "none") for o in ("none", "nothing", "cb")]
-CONFIGS3 = [("none", "none", "none"), ("none", "none", "nothing"), ("nothing", "nothing", "nothing"),
-            ("none", "nothing", "cb"), ("eb", "none", "raises"), ("raises", "cb", "eb")]
+CONFIGS3 = [("none", "none", "none"), ("none", "none", "nothing"), ("nothing", "nothing", "cb"), ("raises", "eb", "none")]
 NORES = "NORESULT"
 CANCELLED = "Cancelled"
 
@@ -422,6 +421,9 @@ def explore_configs():
             for c in ("none", "nothing", "eb"):
                 if (a, b, c) not in out:
                     out.append((a, b, c))
+    for c in [("none", "none", "raises"), ("nothing", "cb", "raises"), ("eb", "none", "raises"), ("raises", "cb", "eb")]:
+        if c not in out:
+            out.append(c)
     return out
 
 
